@@ -67,6 +67,7 @@ struct Args {
     probe: Option<(usize, u64, u64)>,
     dump: Option<(usize, u64, u64)>,
     hang_ms: u64,
+    artifact: Option<(String, PathBuf)>,
 }
 
 fn parse_args() -> Args {
@@ -87,6 +88,7 @@ fn parse_args() -> Args {
         probe: None,
         dump: None,
         hang_ms: 90_000,
+        artifact: None,
     };
     let triple = |args: &Vec<String>, i: usize| -> (usize, u64, u64) {
         if i + 3 >= args.len() {
@@ -137,6 +139,13 @@ fn parse_args() -> Args {
                 a.dump = Some(triple(&args, i));
                 i += 3;
             }
+            "--artifact" => {
+                if i + 2 >= args.len() {
+                    usage()
+                }
+                a.artifact = Some((args[i + 1].clone(), PathBuf::from(&args[i + 2])));
+                i += 2;
+            }
             "--part" => a.part = true,
             "--worker" => a.worker = true,
             _ => usage(),
@@ -148,6 +157,22 @@ fn parse_args() -> Args {
 
 fn main() {
     let a = parse_args();
+    if let Some((target, file)) = &a.artifact {
+        // an input saved by a libFuzzer campaign becomes a replay file of this property
+        let bytes = std::fs::read(file).unwrap_or_else(|e| {
+            eprintln!("cannot read {}: {e}", file.display());
+            std::process::exit(2)
+        });
+        let case = json!({"FuzzArtifact": {"target": target, "bytes": bytes}});
+        let rdir = out_root().join("replays").join(&a.id);
+        std::fs::create_dir_all(&rdir).ok();
+        let path = rdir.join(format!("{:016x}.json", vmodel::hash_json(&case)));
+        let body = json!({"property": a.id, "engine": "libfuzzer", "target": target, "what": format!("input saved by the libFuzzer target {target} (ASan build)"), "case": case});
+        std::fs::write(&path, serde_json::to_string_pretty(&body).unwrap()).expect("write replay");
+        println!("violation (libfuzzer/{target}): the fuzz target failed on an input of {} bytes", bytes.len());
+        println!("VIOLATION property={} replay={}", a.id, path.display());
+        std::process::exit(1);
+    }
     if a.worker || a.probe.is_some() || a.dump.is_some() {
         worker(a)
     } else {
